@@ -460,4 +460,151 @@ theorem LInv.dialFailure {s : State} (h : LInv s) (p : Peer) : LInv (dialFailure
     rw [hc, if_pos rfl]
     unfold cnt; omega
 
+
+/-! ## `on_connection_established` -/
+
+/-- The pending dial actions whose substream could not be opened. -/
+def drainFailed : List PAction → List Bool → List PAction
+  | [], _ => []
+  | a :: as, outs => if outs.headD false then drainFailed as outs.tail else a :: drainFailed as outs.tail
+
+theorem drainDials_shrT (T : Qid → Peer → Prop) (p : Peer) (s : State) (acts : List PAction) (outs : List Bool)
+    (hT : ∀ a ∈ drainFailed acts outs, T a.q p) (e0 : Engine) (h0 : ShrT T e0 s.engine) :
+    ShrT T e0 (drainDials p s acts outs).engine := by
+  induction acts generalizing s outs with
+  | nil => exact h0
+  | cons a as ih =>
+    unfold drainDials
+    unfold drainFailed at hT
+    split
+    · rename_i ho
+      rw [if_pos ho] at hT
+      exact ih _ _ hT h0
+    · rename_i ho
+      rw [if_neg ho] at hT
+      exact ih _ _ (fun b hb => hT b (List.mem_cons_of_mem _ hb))
+        (h0.trans (ShrT.bothFail _ _ _ (hT a List.mem_cons_self)))
+
+theorem drainDials_fields (p : Peer) (s : State) (acts : List PAction) (outs : List Bool) :
+    (drainDials p s acts outs).dials = s.dials ∧ (drainDials p s acts outs).futs = s.futs ∧
+    (drainDials p s acts outs).nextQid = s.nextQid := by
+  induction acts generalizing s outs with
+  | nil => exact ⟨rfl, rfl, rfl⟩
+  | cons a as ih =>
+    unfold drainDials
+    split
+    · exact ih _ _
+    · exact ih _ _
+
+theorem drainDials_acnt_ne (p : Peer) (s : State) (acts : List PAction) (outs : List Bool) (q : Qid) (p' : Peer)
+    (hp : p' ≠ p) : acnt (drainDials p s acts outs) q p' = acnt s q p' := by
+  induction acts generalizing s outs with
+  | nil => rfl
+  | cons a as ih =>
+    unfold drainDials
+    split
+    · rw [ih]
+      unfold acnt
+      simp only [List.countP_append, List.countP_singleton]
+      have : ¬ p = p' := fun h => hp h.symm
+      simp [this]
+    · rw [ih]
+      rfl
+
+theorem drainDials_acnt_eq (p : Peer) (s : State) (acts : List PAction) (outs : List Bool) (q : Qid) :
+    acnt (drainDials p s acts outs) q p + (drainFailed acts outs).countP (·.q == q) =
+      acnt s q p + acts.countP (·.q == q) := by
+  induction acts generalizing s outs with
+  | nil => rfl
+  | cons a as ih =>
+    unfold drainDials drainFailed
+    split
+    · rw [ih]
+      unfold acnt
+      simp only [List.countP_append, List.countP_singleton, List.countP_cons]
+      by_cases hq : a.q = q <;> simp [hq] <;> omega
+    · simp only [List.countP_cons]
+      have := ih { s with engine := regRespDone (regSendFail s.engine a.q p) a.q p } outs.tail
+      have hs : acnt { s with engine := regRespDone (regSendFail s.engine a.q p) a.q p } q p = acnt s q p := rfl
+      rw [hs] at this
+      omega
+
+theorem dialActions_countP (s : State) (p : Peer) (q : Qid) :
+    (dialActions s p).countP (·.q == q) = dcnt s q p := by
+  unfold dialActions dcnt
+  rw [List.countP_map, List.countP_filter]
+  apply List.countP_congr
+  intro x _
+  simp
+
+theorem LInv.established {s : State} (h : LInv s) (p : Peer) (outs : List Bool) : LInv (established s p outs) := by
+  have same : ∀ s' : State, s'.engine = s.engine → s'.nextQid = s.nextQid → s'.dials = s.dials →
+      s'.actions = s.actions → s'.futs = s.futs → LInv s' := by
+    intro s' he hn hd ha hf
+    refine h.preserve_drop (fun _ _ => False) (he ▸ .refl _) hn ?_ (fun _ _ hc => hc.elim) (fun _ hx => hf ▸ hx)
+    intro q p'
+    unfold cnt dcnt acnt fcnt
+    rw [hd, ha, hf]
+    exact Nat.le_refl _
+  unfold Coordinator.established
+  split
+  · exact h
+  · unfold onConnectionEstablished
+    split
+    · exact same _ rfl rfl rfl rfl rfl
+    · simp only []
+      split
+      · exact same _ rfl rfl rfl rfl rfl
+      · rename_i acts hne
+        generalize hS1 : ({ s with connected := s.connected ++ [p], dialing := s.dialing.filter (· != p),
+                                   dials := s.dials.filter (fun d => d.1 != p), ctx := s.ctx ++ [p] } : State) = S1
+        generalize hacts : dialActions { s with connected := s.connected ++ [p],
+                                                dialing := s.dialing.filter (· != p) } p = acts0
+        have hd1 : ∀ q p', dcnt S1 q p' = if p' = p then 0 else dcnt s q p' := by
+          intro q p'
+          subst hS1
+          unfold dcnt
+          simp only []
+          exact countP_filter_key s.dials (·.1) _ p p'
+            (by intro x hx; simpa using ((Bool.and_eq_true _ _).mp hx).2)
+        have ha1 : ∀ q p', acnt S1 q p' = acnt s q p' := by intro q p'; subst hS1; rfl
+        have hf1 : ∀ q p', fcnt S1 q p' = fcnt s q p' := by intro q p'; subst hS1; rfl
+        have he1 : S1.engine = s.engine := by subst hS1; rfl
+        have hn1 : S1.nextQid = s.nextQid := by subst hS1; rfl
+        have hfu1 : S1.futs = s.futs := by subst hS1; rfl
+        have hda : ∀ q, acts0.countP (·.q == q) = dcnt s q p := by
+          intro q; subst hacts; exact dialActions_countP _ p q
+        have hfields := drainDials_fields p S1 acts0 outs
+        have key : ∀ q p', cnt (drainDials p S1 acts0 outs) q p' +
+            (if p' = p then (drainFailed acts0 outs).countP (·.q == q) else 0) = cnt s q p' := by
+          intro q p'
+          have e1 : dcnt (drainDials p S1 acts0 outs) q p' = dcnt S1 q p' := by unfold dcnt; rw [hfields.1]
+          have e2 : fcnt (drainDials p S1 acts0 outs) q p' = fcnt S1 q p' := by unfold fcnt; rw [hfields.2.1]
+          unfold cnt
+          rw [e1, e2, hd1, hf1]
+          by_cases hp : p' = p
+          · subst hp
+            have := drainDials_acnt_eq p' S1 acts0 outs q
+            rw [ha1, hda] at this
+            simp only [if_true]
+            omega
+          · rw [drainDials_acnt_ne p S1 acts0 outs q p' hp, ha1]
+            simp only [if_neg hp]
+            omega
+        refine h.preserve_drop (fun q p' => p' = p ∧ ∃ a ∈ drainFailed acts0 outs, a.q = q)
+          (drainDials_shrT _ p S1 acts0 outs (fun a ha => ⟨rfl, a, ha, rfl⟩) _ (he1 ▸ .refl _)) ?_ ?_ ?_ ?_
+        · rw [hfields.2.2, hn1]
+        · intro q p'
+          have := key q p'
+          omega
+        · rintro q p' ⟨hp, a, ha, hq⟩
+          have := key q p'
+          rw [if_pos hp] at this
+          have hpos : 0 < (drainFailed acts0 outs).countP (·.q == q) :=
+            List.countP_pos_iff.mpr ⟨a, ha, by simp [hq]⟩
+          omega
+        · intro f hf
+          rw [hfields.2.1, hfu1] at hf
+          exact hf
+
 end Litep2pVerif.Kad.Coordinator
